@@ -625,6 +625,7 @@ class E:
 class Violation:
     neg = None
     ndecl = None
+    alts = ()
 
     def __init__(self, label, key, values, detail):
         self.label = label
@@ -670,6 +671,8 @@ class Ctx(_Base):
         self.shard = None
         self.smt_dump = None     # optional callable(smt2_text, expected)
         self._tight = {}
+        self._alt_keys = set()   # violation keys that already carry extra witnesses
+        self.abort_witnesses = []
 
     # ---- solver plumbing
     def _check(self, *extra):
@@ -968,6 +971,46 @@ class Ctx(_Base):
         self.path_violations.append(v)
         return False
 
+    def alt_witnesses(self, neg, k, tag=""):
+        """Up to k further models of (path condition [and neg]) that differ
+        from z3's default model: inputs are pinned one by one to pseudo-random
+        or extreme values of their range as long as the conjunction stays
+        satisfiable.  Used only to look for a *concrete* failure where the
+        symbolic encoding has a gap (a counterexample that does not reproduce,
+        or an unsupported operation): such a run can turn 'inconclusive' into a
+        replayed violation, never into a pass."""
+        import random
+        out = []
+        decl = [d for d in self.decl if d[2] != d[3]][:48]
+        saved_to = self.timeout_ms if hasattr(self, "timeout_ms") else None
+        for n in range(k):
+            rng = random.Random(repr((tag, n)))
+            extra = [] if neg is None else [neg]
+            try:
+                for name, kind, lo, hi, t in decl:
+                    if kind == "bool":
+                        c = t if rng.random() < 0.5 else z3.Not(t)
+                    else:
+                        mode = rng.random()
+                        if n == 0 or mode < 0.15:
+                            r = hi
+                        elif mode < 0.25:
+                            r = lo
+                        else:
+                            r = rng.randint(lo, hi)
+                        c = t == r
+                    self.queries += 1
+                    if self.solver.check(*(extra + [c])) == z3.sat:
+                        extra.append(c)
+                self.queries += 1
+                if self.solver.check(*extra) == z3.sat:
+                    vals = self._values(self.solver.model())
+                    if vals not in out:
+                        out.append(vals)
+            except (PathEnd, EngineUnsupported, z3.Z3Exception):
+                break
+        return out
+
     def complete_violations(self):
         """Inputs declared after a violation was recorded are missing from
         its model: re-solve under the final path condition so that the
@@ -982,6 +1025,10 @@ class Ctx(_Base):
                     v.values = self._values(self.solver.model())
             except (PathEnd, EngineUnsupported):
                 pass
+        for v in self.path_violations:
+            if v.key not in self._alt_keys and len(self._alt_keys) < 64:
+                self._alt_keys.add(v.key)
+                v.alts = self.alt_witnesses(None, 6, tag=v.key)
 
     def fail(self, label, key=None, detail=None):
         return self.prove(False, label, key, detail)
@@ -1173,6 +1220,14 @@ def explore(fn, shard=None, max_paths=None, deadline=None, on_path=None,
                     skip = True
                 except PathEnd:
                     skip = True
+                except EngineUnsupported:
+                    if ctx.aborted not in ("shard", "infeasible"):
+                        try:
+                            ctx.aborted = None
+                            ctx.abort_witnesses = ctx.alt_witnesses(None, 6, tag="abort")
+                        except BaseException:  # noqa
+                            pass
+                    raise
                 if ctx.aborted is not None and not skip:
                     # a control exception was swallowed by the code under test
                     if ctx.aborted in ("shard", "infeasible"):
